@@ -25,7 +25,7 @@ Definition balanced : tree := t_set t_dict0 [t_cap t_dict0 [t_italics true; t_te
 (* layout with an origin and no extent (flags: truthy + origin): fit_to_screen builds a new Layout *)
 Definition positioned : tree := t_set t_dict0 [t_cap t_dict0 [t_text "x"] (t_lay 18)].
 
-Definition dflt_opts : wopts := mkWopts true true false TNone None.
+Definition dflt_opts : wopts := mkWopts true true false TNone None false.
 
 Definition tokens_of (r : list (mobs * list tree)) (i : nat) : list Z :=
   match nth_error r i with Some (m, _) => mo_tokens m | None => [] end.
@@ -169,7 +169,7 @@ Proof. split; [apply wf_worldb_sound; vm_compute; reflexivity|]. vm_compute. spl
 
 Definition some_writes : list op :=
   [OWrite 0 W_DFXP dflt_opts 2; OWrite 1 W_SAMI dflt_opts 0; OWrite 0 W_DFXP dflt_opts 1; OWrite 2 W_LEGACY dflt_opts 2;
-   OWrite 3 W_SINGLE (mkWopts true true false TNone (Some 18)) 2].
+   OWrite 3 W_SINGLE (mkWopts true true false TNone (Some 18) false) 2].
 
 (* the hypotheses of the history theorems hold on it, and the conclusion is not `[] = []` *)
 Example history_theorem_instance :
